@@ -179,7 +179,7 @@ Record var := Var {
   v_name : str;
   v_units : option str;           (* the 'units' attribute, if any *)
   v_code : option str;            (* str(missing_value), if the attribute exists *)
-  v_fill : dec;                   (* the masked array's fill_value (used by numpy.ma.filled) *)
+  v_fill : dec;                   (* the masked array's own fill_value (ignored by the repaired writer) *)
   v_cells : list (option dec)     (* None = masked *)
 }.
 
@@ -224,8 +224,15 @@ Definition code_str (v : var) : str := match v_code v with Some s => s | None =>
 Definition units_str (v : var) : str := match v_units v with Some s => s | None => s2z "unknown" end.
 Definition sep : str := [cCOMMA; cSP].
 
+(* numeric value of the missing code printed in the header: getattr(var, 'missing_value', -999) *)
+Definition code_val (v : var) : dec :=
+  match parse_num (code_str v) with Some c => c | None => D 0 0 end.
+(* numpy.ma.filled(var[:], missing_value): masked cells carry the code (v_fill, the array's own
+   fill_value, is no longer used by the writer) *)
 Definition filled (v : var) : list dec :=
-  map (fun c => match c with Some d => d | None => v_fill v end) (v_cells v).
+  map (fun c => match c with Some d => d | None => code_val v end) (v_cells v).
+(* str(value) with line breaks replaced by blanks *)
+Definition one_line (s : str) : str := replace_char 13 cSP (replace_char cNL cSP s).
 
 (* array(vals).T : rows; all variables share the POINTS dimension *)
 Fixpoint transpose_rows (n : nat) (cols : list (list dec)) : list (list dec) :=
@@ -238,6 +245,11 @@ Fixpoint transpose_rows (n : nat) (cols : list (list dec)) : list (list dec) :=
 Definition header_count (f : file) (ind : str) : Z :=
   Z.of_nat (length (myattrs f)) + Z.of_nat (length (depvars ind f)) + 15.
 
+Definition indep_line (f : file) (ind : str) : str :=
+  match find_var ind f with
+  | Some iv => match v_units iv with Some u => join sep [ind; u] | None => ind end
+  | None => ind
+  end.
 (* the arguments of the successive print() calls of the header (lines 2 .. names line) *)
 Definition hdr_strings (f : file) (ind sdate : str) : list str :=
   let deps := depvars ind f in
@@ -246,11 +258,11 @@ Definition hdr_strings (f : file) (ind sdate : str) : list str :=
   [ attr_or "PI_NAME" "Unknown" a; attr_or "ORGANIZATION_NAME" "Unknown" a;
     attr_or "SOURCE_DESCRIPTION" "Unknown" a; attr_or "MISSION_NAME" "Unknown" a;
     attr_or "VOLUME_INFO" "1, 1" a; sdate ++ [cSP] ++ attr_or "WDATE" "2000, 01, 01" a;
-    attr_or "TIME_INTERVAL" "0" a; ind; zstr (Z.of_nat (length deps));
+    attr_or "TIME_INTERVAL" "0" a; indep_line f ind; zstr (Z.of_nat (length deps));
     join sep (map (fun _ => s2z "1") deps); join sep (map code_str deps) ]
   ++ map (fun v => join sep [v_name v; units_str v]) deps
   ++ [ s2z "0"; zstr (Z.of_nat (length my)) ]
-  ++ map (fun kv => fst kv ++ [cCOLON; cSP] ++ snd kv) my
+  ++ map (fun kv => fst kv ++ [cCOLON; cSP] ++ one_line (snd kv)) my
   ++ [ join sep (ind :: map v_name deps) ].
 
 (* ncf2ffi1001: declared header count (line 1 is "N, 1001") and physical lines 2.. ;
@@ -519,10 +531,6 @@ Definition impl_read (n : Z) (ls : list pline) : option rfile :=
     | Some names =>
       let miss := firstn 1 (s_miss s) ++ s_miss s in
       let scales := D 1 0 :: s_scales s in
-      if (has_attr "LLOD_FLAG" (s_attrs s) && negb (has_attr "LLOD_VALUE" (s_attrs s)))
-         || (has_attr "ULOD_FLAG" (s_attrs s) && negb (has_attr "ULOD_VALUE" (s_attrs s)))
-      then None                                         (* AttributeError *)
-      else
       let dl := drop_trailing_blank rest in
       match dl with
       | [] => None                                      (* no data lines *)
@@ -571,8 +579,8 @@ Definition impl_second (f : file) : option rfile :=
 
 (* ---------------------------------------------------------------- auto-detection *)
 (* pncopen without format: the l100 reader is asked before ffi1001 and claims every file whose
-   28th physical line is empty or missing (zip over an empty token list), i.e. every file with
-   fewer than 28 lines; otherwise it compares the tokens with 'Level Press Alt ...'. *)
+   key line (the first line starting with 'Level', else the 28th) has at least 8 tokens equal to
+   'Level Press Alt Pottp Temp FtempV Hum Ozone'. *)
 Inductive reader_id := R_ffi1001 | R_l100.
 Definition l100_names : list str := map s2z ["Level"; "Press"; "Alt"; "Pottp"; "Temp"; "FtempV"; "Hum"; "Ozone"]%string.
 Fixpoint zip_all_eq (a b : list str) : bool :=
@@ -586,6 +594,9 @@ Definition pline_words (l : pline) : list str :=
   | PR cs => map (fun _ => [48]) cs        (* numeric tokens, never equal to a name *)
   end.
 (* ls = physical lines 2.. ; the 28th line of the file is index 26 *)
+(* l100.isMine on its key line: at least 8 tokens, the first 8 being the L100 column names *)
+Definition claims (l : pline) : bool :=
+  (8 <=? Z.of_nat (length (pline_words l))) && zip_all_eq l100_names (pline_words l).
 Fixpoint starts_with (p s : str) : bool :=
   match p, s with
   | [], _ => true
@@ -601,8 +612,8 @@ Definition impl_detect (ls : list pline) : reader_id :=
              | None => nth_error ls 26
              end in
   match key with
-  | None => R_l100
-  | Some l => if zip_all_eq l100_names (pline_words l) then R_l100 else R_ffi1001
+  | None => R_ffi1001                   (* no such line: no tokens, not claimed *)
+  | Some l => if claims l then R_l100 else R_ffi1001
   end.
 
 (* ---------------------------------------------------------------- specification *)
@@ -612,12 +623,12 @@ Definition impl_detect (ls : list pline) : reader_id :=
 Definition spec_cell (c : option dec) : cell :=
   match c with None => CM | Some d => CV (fmt6e d) end.
 Definition spec_var (v : var) : option rvar :=
-  match v_units v, v_code v with
-  | Some u, Some cs => match parse_num cs with
-                       | Some c => Some (RVar (v_name v) u cs c (map spec_cell (v_cells v)))
-                       | None => None
-                       end
-  | _, _ => None
+  match v_units v with
+  | Some u => match parse_num (code_str v) with
+              | Some c => Some (RVar (v_name v) u (code_str v) c (map spec_cell (v_cells v)))
+              | None => None
+              end
+  | None => None
   end.
 Definition spec_roundtrip (f : file) : option (list rvar) :=
   match indep_name f with
@@ -693,83 +704,64 @@ Definition in_quant (f : file) : bool :=
       && forallb (fun v => Nat.eqb (length (v_cells v)) nrec) (f_vars f)
       && forallb (fun d => abs_le_pow10 d 9) (filled iv)
       && forallb (fun v => opt_all no_nl (v_units v) && opt_all clean_code (v_code v)) (f_vars f)
+      && forallb (fun v => forallb (fun x => match x with
+                                             | Some d => negb (dec_eqb d (if str_eqb (v_name v) ind
+                                                                          then match deps with w :: _ => code_val w | [] => D 0 0 end
+                                                                          else code_val v))
+                                             | None => true
+                                             end) (v_cells v)) (f_vars f)
     | None => false
     end
   | _, _ => false
   end.
 
 (* ---- known-defect regions (booleans on the input) *)
-Definition reg_newline (f : file) : bool :=
-  existsb (fun kv => negb (no_nl (snd kv))) (myattrs f).
-Definition reg_lod (f : file) : bool :=
-  let has k := match get_attr (s2z k) (f_attrs f) with Some _ => true | None => false end in
-  (has "LLOD_FLAG"%string && negb (has "LLOD_VALUE"%string)) || (has "ULOD_FLAG"%string && negb (has "ULOD_VALUE"%string)).
 Definition reg_token (f : file) : bool :=
   existsb (fun v => has_char cSLASH (v_name v)
                     || match v_units v with Some u => negb (clean_unit u) | None => true end) (f_vars f).
-Definition code_num (v : var) : option dec := match v_code v with Some s => parse_num s | None => None end.
-(* the code the reader will use for variable number i of the output: dependent variables their own,
+(* the code the reader will use for a variable of the output: dependent variables their own,
    the independent variable the first dependent variable's *)
-Definition var_maskcode_bad (v : var) (rc : option dec) : bool :=
-  existsb (fun c => match c with None => true | Some _ => false end) (v_cells v)
-  && match rc with
-     | Some c => negb (dec_eqb (fmt6e (v_fill v)) c)
-     | None => true
-     end.
-Definition var_collides (v : var) (rc : option dec) : bool :=
-  match rc with
-  | Some c => existsb (fun x => match x with Some d => dec_eqb (fmt6e d) c | None => false end) (v_cells v)
-  | None => false
-  end.
-Definition first_dep_code (ind : str) (f : file) : option dec :=
-  match depvars ind f with v :: _ => match code_num v with Some c => Some c | None => parse_num (s2z "-999") end | [] => None end.
-Definition own_code (v : var) : option dec :=
-  match v_code v with Some _ => code_num v | None => parse_num (s2z "-999") end.
-Definition reg_maskcode (f : file) : bool :=
+Definition first_dep_code (ind : str) (f : file) : dec :=
+  match depvars ind f with v :: _ => code_val v | [] => D 0 0 end.
+Definition reader_code (ind : str) (f : file) (v : var) : dec :=
+  if str_eqb (v_name v) ind then first_dep_code ind f else code_val v.
+Definition has_masked (v : var) : bool :=
+  existsb (fun c => match c with None => true | Some _ => false end) (v_cells v).
+(* a masked cell is written as '%.6e' % code: a code with more than 7 digits is not recognised again *)
+Definition reg_longcode (f : file) : bool :=
   match indep_name f with
-  | Some ind =>
-      existsb (fun v => var_maskcode_bad v (if str_eqb (v_name v) ind then first_dep_code ind f else own_code v)
-                        || match v_code v with None => existsb (fun c => match c with None => true | _ => false end) (v_cells v) | Some _ => false end)
-              (f_vars f)
+  | Some ind => existsb (fun v => has_masked v && negb (dec_eqb (fmt6e (code_val v)) (reader_code ind f v))) (f_vars f)
   | None => false
   end.
+(* an unmasked value that differs from the code but prints like it *)
 Definition reg_collide (f : file) : bool :=
   match indep_name f with
   | Some ind =>
-      existsb (fun v => var_collides v (if str_eqb (v_name v) ind then first_dep_code ind f else own_code v)) (f_vars f)
+      existsb (fun v => existsb (fun x => match x with
+                                          | Some d => dec_eqb (fmt6e d) (reader_code ind f v)
+                                          | None => false
+                                          end) (v_cells v)) (f_vars f)
   | None => false
   end.
+(* the text has no place for a missing code of the independent variable *)
 Definition reg_indep (f : file) : bool :=
   match indep_name f with
   | Some ind =>
     match find_var ind f with
-    | Some iv =>
-        negb (match v_units iv with Some u => str_eqb u ind | None => false end)
-        || negb (match code_num iv, first_dep_code ind f with
-                 | Some a, Some b => dec_eqb a b
-                 | _, _ => false
-                 end)
+    | Some iv => negb (dec_eqb (code_val iv) (first_dep_code ind f))
     | None => false
     end
   | None => false
   end.
 Definition total_lines (f : file) : Z :=
   match impl_write f with Some (_, ls) => 1 + Z.of_nat (length ls) | None => 0 end.
-Definition reg_short (f : file) : bool :=
-  match impl_write f with
-  | Some (_, ls) => match impl_detect ls with R_ffi1001 => false | R_l100 => true end
-  | None => false
-  end.
 
 Definition region_of (f : file) : nat :=
   if negb (in_quant f) then 0%nat
-  else if reg_newline f then 2%nat
-  else if reg_lod f then 6%nat
-  else if reg_token f then 7%nat
-  else if reg_maskcode f then 3%nat
-  else if reg_collide f then 4%nat
+  else if reg_token f then 4%nat
+  else if reg_longcode f then 2%nat
+  else if reg_collide f then 3%nat
   else if reg_indep f then 1%nat
-  else if reg_short f then 5%nat
   else 0%nat.
 
 (* the domain on which the whole property is proved for the model *)
